@@ -1,64 +1,83 @@
 #!/usr/bin/env python3
-"""Runs the registered checks against the seeded mutations in /verif/seeded.
-usage: lib/seedtest.py [seed-dir-names...]   (writes seeded/RESULTS.json)"""
+"""Runs the registered checks against the seeded changes in /verif/seeded.
+usage: lib/seedtest.py [seed-dir-names...]   (writes seeded/RESULTS.json)
+
+The changes are applied to a scratch worktree of /repo's HEAD (never to /repo
+itself); the checks are pointed at it with VERIF_REPO and write their evidence
+and queries outside /verif."""
 import json
 import os
 import subprocess
 import sys
 
 ROOT = os.path.dirname(os.path.dirname(os.path.abspath(__file__)))
+WT = "/tmp/verif_seed_wt"
 
 
 def sh(cmd, **kw):
     env = dict(os.environ)
     env["VERIF_EVIDENCE_DIR"] = "/tmp/verif_seed_evidence"
+    env["VERIF_OUT_DIR"] = "/tmp/verif_seed_out"
+    env["VERIF_REPO"] = WT
     return subprocess.run(cmd, shell=True, stdout=subprocess.PIPE, stderr=subprocess.STDOUT, text=True, env=env, **kw)
+
+
+def restore():
+    sh("git -C %s reset -q ; git -C %s checkout -q -- . ; git -C %s clean -fdq" % (WT, WT, WT))
 
 
 def main():
     names = sys.argv[1:] or sorted(d for d in os.listdir(os.path.join(ROOT, "seeded")) if os.path.isdir(os.path.join(ROOT, "seeded", d)))
     res_path = os.path.join(ROOT, "seeded", "RESULTS.json")
     results = json.load(open(res_path)) if os.path.exists(res_path) else {}
-    if sh("git -C /repo status --porcelain").stdout.strip():
-        print("refusing: /repo has uncommitted changes")
+    sh("git -C /repo worktree remove --force %s" % WT)
+    sh("rm -rf %s" % WT)
+    r = sh("git -C /repo worktree add --detach %s HEAD" % WT)
+    if r.returncode != 0:
+        print(r.stdout)
         return 2
     manifest = json.load(open(os.path.join(ROOT, "MANIFEST.json")))
     claimed = [c["property_id"] for c in manifest["checks"]]
-    for n in names:
-        d = os.path.join(ROOT, "seeded", n)
-        meta = json.load(open(os.path.join(d, "meta.json")))
-        pid = meta["property"]
-        patch = "patch.diff"
-        if os.path.exists(os.path.join(d, "patch_current.diff")):
-            patch = "patch_current.diff"  # the same change ported to the tree after the fix: commits
-        r = sh("git -C /repo apply --check %s/%s" % (d, patch))
-        if r.returncode != 0:
-            r3 = sh("git -C /repo apply -3 %s/%s" % (d, patch))
-            if r3.returncode != 0:
-                sh("git -C /repo checkout -q -- . ; git -C /repo reset -q")
-                results[n] = {"property": pid, "applies": False, "note": r.stdout.strip()[:300]}
-                print(n, "patch does not apply to the current tree")
-                continue
-            sh("git -C /repo reset -q")
-        else:
-            sh("git -C /repo apply %s/%s" % (d, patch))
-        try:
-            out = {}
-            props = [pid] + [p for p in meta.get("also_check", []) if p != pid]
-            for p in props:
-                if p not in claimed:
-                    out[p] = {"exit": None, "note": "property not claimed"}
+    try:
+        for n in names:
+            d = os.path.join(ROOT, "seeded", n)
+            meta = json.load(open(os.path.join(d, "meta.json")))
+            pid = meta["property"]
+            patch = "patch.diff"
+            if os.path.exists(os.path.join(d, "patch_current.diff")):
+                patch = "patch_current.diff"  # the same change ported to the tree after the fix: commits
+            r = sh("git -C %s apply --check %s/%s" % (WT, d, patch))
+            if r.returncode != 0:
+                r3 = sh("git -C %s apply -3 %s/%s" % (WT, d, patch))
+                if r3.returncode != 0:
+                    restore()
+                    results[n] = {"property": pid, "applies": False, "note": r.stdout.strip()[:300]}
+                    print(n, "patch does not apply to the current tree", flush=True)
                     continue
-                c = sh("./check %s --tier quick" % p, cwd=ROOT)
-                lines = [l for l in c.stdout.splitlines() if l.startswith("VIOLATION") or l.startswith("KNOWN") or l.startswith("check ") or l.startswith("BROKEN")]
-                out[p] = {"exit": c.returncode, "lines": lines[-8:]}
-            detected = any(v.get("exit") == 1 for v in out.values())
-            results[n] = {"property": pid, "applies": True, "detected": detected, "checks": out}
-            print(n, "DETECTED" if detected else "missed", {k: v.get("exit") for k, v in out.items()})
-        finally:
-            # /repo was clean at the start (checked above): restoring tracked files undoes the patch
-            sh("git -C /repo reset -q ; git -C /repo checkout -q -- .")
-    json.dump(results, open(res_path, "w"), indent=1)
+                sh("git -C %s reset -q" % WT)
+            else:
+                sh("git -C %s apply %s/%s" % (WT, d, patch))
+            try:
+                out = {}
+                props = [pid] + [p for p in meta.get("also_check", []) if p != pid]
+                for p in props:
+                    if p not in claimed:
+                        out[p] = {"exit": None, "note": "property not claimed"}
+                        continue
+                    c = sh("./check %s --tier quick" % p, cwd=ROOT)
+                    lines = [l for l in c.stdout.splitlines() if l.startswith("VIOLATION") or l.startswith("KNOWN") or l.startswith("check ") or l.startswith("BROKEN")]
+                    out[p] = {"exit": c.returncode, "lines": lines[-8:]}
+                detected = any(v.get("exit") == 1 for v in out.values())
+                results[n] = {"property": pid, "applies": True, "detected": detected, "checks": out}
+                if meta.get("neutralised_by_fix"):
+                    results[n]["neutralised_by_fix"] = meta["neutralised_by_fix"]
+                print(n, "DETECTED" if detected else "missed", {k: v.get("exit") for k, v in out.items()}, flush=True)
+            finally:
+                restore()
+            json.dump(results, open(res_path, "w"), indent=1)
+    finally:
+        sh("git -C /repo worktree remove --force %s" % WT)
+        sh("rm -rf /tmp/verif_seed_out /tmp/verif_seed_evidence %s" % WT)
     return 0
 
 
